@@ -396,7 +396,7 @@ func (w *World) doTruncate(n *Node, res *StepResult) {
 		w.probe("c07-truncation-raced-with-other-admissions")
 	}
 	w.noteTruncErr(n.Idx, terr)
-	if terr != nil && strings.Contains(terr.Error(), "nothing to truncate") {
+	if terr != nil && (errors.Is(terr, accountant.ErrNothingToTruncate) || strings.Contains(terr.Error(), "nothing to truncate")) {
 		w.probe("c07-truncate-nothing-to-cut")
 	} else if terr != nil {
 		w.probe("c07-truncate-failed")
